@@ -18,13 +18,28 @@ def exec {α} (m : M R α) (flt : Option Addr) (ms : MS R) : MS R := (m flt ms).
 theorem wp_pure {α} (a : α) (Q : Out α → MS R → Prop) (flt ms) :
     wp (pure a : M R α) Q flt ms ↔ Q (.ok a) ms := Iff.rfl
 
+/-- continuation of a bind (kept folded until the outcome is known, so that post-conditions
+are not duplicated at every bind) -/
+def wpK {α β} (f : α → M R β) (Q : Out β → MS R → Prop) (flt : Option Addr) (o : Out α) (ms : MS R) : Prop :=
+  match o with
+  | .ok a => wp (f a) Q flt ms
+  | .fail => Q .fail ms
+
+@[simp] theorem wpK_ok {α β} (f : α → M R β) (Q : Out β → MS R → Prop) (flt) (a : α) (ms : MS R) :
+    wpK f Q flt (.ok a) ms = wp (f a) Q flt ms := rfl
+@[simp] theorem wpK_fail {α β} (f : α → M R β) (Q : Out β → MS R → Prop) (flt) (ms : MS R) :
+    wpK f Q flt (.fail : Out α) ms = Q .fail ms := rfl
+
 theorem wp_bind {α β} (m : M R α) (f : α → M R β) (Q : Out β → MS R → Prop) (flt ms) :
-    wp (m >>= f) Q flt ms ↔
-      wp m (fun o ms' => match o with | .ok a => wp (f a) Q flt ms' | .fail => Q .fail ms') flt ms := by
+    wp (m >>= f) Q flt ms ↔ wp m (wpK f Q flt) flt ms := by
   show wp (M.bind m f) Q flt ms ↔ _
   unfold wp M.bind
   cases h : m flt ms with
-  | mk o ms' => cases o <;> simp
+  | mk o ms' => cases o <;> simp [wpK, wp]
+
+/-- consequence rule -/
+theorem wp_mono {α} {m : M R α} {Q Q' : Out α → MS R → Prop} {flt : Option Addr} {ms : MS R}
+    (h : wp m Q flt ms) (himp : ∀ o ms', Q o ms' → Q' o ms') : wp m Q' flt ms := himp _ _ h
 
 theorem wp_step (k n : String) (eff : State R → State R) (Q : Out Unit → MS R → Prop) (flt ms) :
     wp (step k n eff) Q flt ms ↔
@@ -43,46 +58,64 @@ theorem wp_getMS (Q : Out (MS R) → MS R → Prop) (flt ms) : wp getMS Q flt ms
 theorem wp_emit (m : Msg) (Q : Out Unit → MS R → Prop) (flt ms) :
     wp (emit m) Q flt ms ↔ Q (.ok ()) { ms with msgs := ms.msgs ++ [m] } := Iff.rfl
 
+def attK (Q : Out Bool → MS R → Prop) (o : Out Unit) (ms : MS R) : Prop :=
+  match o with
+  | .ok _ => Q (.ok true) ms
+  | .fail => Q (.ok false) ms
+@[simp] theorem attK_ok (Q : Out Bool → MS R → Prop) (u : Unit) (ms : MS R) : attK Q (.ok u) ms = Q (.ok true) ms := rfl
+@[simp] theorem attK_fail (Q : Out Bool → MS R → Prop) (ms : MS R) : attK Q .fail ms = Q (.ok false) ms := rfl
+
 theorem wp_attempt (m : M R Unit) (Q : Out Bool → MS R → Prop) (flt ms) :
-    wp (attempt m) Q flt ms ↔
-      wp m (fun o ms' => match o with | .ok _ => Q (.ok true) ms' | .fail => Q (.ok false) ms') flt ms := by
+    wp (attempt m) Q flt ms ↔ wp m (attK Q) flt ms := by
   unfold wp attempt
   cases h : m flt ms with
-  | mk o ms' => cases o <;> simp
+  | mk o ms' => cases o <;> simp [attK]
 
-theorem wp_txn_some (c t : M R Unit) (rb : Bool → M R Unit) (Q : Out Unit → MS R → Prop) (flt ms) :
-    wp (txn c t (some rb)) Q flt ms ↔
-      wp c (fun o ms1 => match o with
-        | .fail => Q .fail (exec (rb true) flt ms1)
-        | .ok _ => wp t (fun o2 ms2 => match o2 with
-            | .ok _ => Q (.ok ()) ms2
-            | .fail => Q .fail (exec (rb false) flt ms2)) flt ms1) flt ms := by
-  unfold wp txn exec
-  cases h : c flt ms with
-  | mk o ms1 =>
-    cases o with
-    | fail => simp
-    | ok u =>
-      simp only
-      cases h2 : t flt ms1 with
-      | mk o2 ms2 => cases o2 <;> simp
+/-- after the then-step of a transaction -/
+def txnK2 (rb : Option (Bool → M R Unit)) (Q : Out Unit → MS R → Prop) (flt : Option Addr) (o : Out Unit) (ms : MS R) : Prop :=
+  match o with
+  | .ok _ => Q (.ok ()) ms
+  | .fail => match rb with
+    | none => Q .fail ms
+    | some rb => Q .fail (exec (rb false) flt ms)
+/-- after the condition step of a transaction -/
+def txnK1 (t : M R Unit) (rb : Option (Bool → M R Unit)) (Q : Out Unit → MS R → Prop) (flt : Option Addr) (o : Out Unit) (ms : MS R) : Prop :=
+  match o with
+  | .ok _ => wp t (txnK2 rb Q flt) flt ms
+  | .fail => match rb with
+    | none => Q .fail ms
+    | some rb => Q .fail (exec (rb true) flt ms)
 
-theorem wp_txn_none (c t : M R Unit) (Q : Out Unit → MS R → Prop) (flt ms) :
-    wp (txn c t none) Q flt ms ↔
-      wp c (fun o ms1 => match o with
-        | .fail => Q .fail ms1
-        | .ok _ => wp t (fun o2 ms2 => match o2 with
-            | .ok _ => Q (.ok ()) ms2
-            | .fail => Q .fail ms2) flt ms1) flt ms := by
+@[simp] theorem txnK2_ok (rb : Option (Bool → M R Unit)) (Q : Out Unit → MS R → Prop) (flt) (u : Unit) (ms : MS R) :
+    txnK2 rb Q flt (.ok u) ms = Q (.ok ()) ms := rfl
+@[simp] theorem txnK2_fail_some (rb : Bool → M R Unit) (Q : Out Unit → MS R → Prop) (flt) (ms : MS R) :
+    txnK2 (some rb) Q flt .fail ms = Q .fail (exec (rb false) flt ms) := rfl
+@[simp] theorem txnK2_fail_none (Q : Out Unit → MS R → Prop) (flt) (ms : MS R) :
+    txnK2 none Q flt .fail ms = Q .fail ms := rfl
+@[simp] theorem txnK1_ok (t : M R Unit) (rb : Option (Bool → M R Unit)) (Q : Out Unit → MS R → Prop) (flt) (u : Unit) (ms : MS R) :
+    txnK1 t rb Q flt (.ok u) ms = wp t (txnK2 rb Q flt) flt ms := rfl
+@[simp] theorem txnK1_fail_some (t : M R Unit) (rb : Bool → M R Unit) (Q : Out Unit → MS R → Prop) (flt) (ms : MS R) :
+    txnK1 t (some rb) Q flt .fail ms = Q .fail (exec (rb true) flt ms) := rfl
+@[simp] theorem txnK1_fail_none (t : M R Unit) (Q : Out Unit → MS R → Prop) (flt) (ms : MS R) :
+    txnK1 t none Q flt .fail ms = Q .fail ms := rfl
+
+theorem wp_txn (c t : M R Unit) (rb : Option (Bool → M R Unit)) (Q : Out Unit → MS R → Prop) (flt ms) :
+    wp (txn c t rb) Q flt ms ↔ wp c (txnK1 t rb Q flt) flt ms := by
   unfold wp txn
   cases h : c flt ms with
   | mk o ms1 =>
     cases o with
-    | fail => simp
+    | fail => cases rb <;> simp [txnK1, exec]
     | ok u =>
-      simp only
+      simp only [txnK1, wp]
       cases h2 : t flt ms1 with
-      | mk o2 ms2 => cases o2 <;> simp
+      | mk o2 ms2 => cases o2 <;> cases rb <;> simp [txnK2, exec]
+
+theorem wp_txn_some (c t : M R Unit) (rb : Bool → M R Unit) (Q : Out Unit → MS R → Prop) (flt ms) :
+    wp (txn c t (some rb)) Q flt ms ↔ wp c (txnK1 t (some rb) Q flt) flt ms := wp_txn c t (some rb) Q flt ms
+
+theorem wp_txn_none (c t : M R Unit) (Q : Out Unit → MS R → Prop) (flt ms) :
+    wp (txn c t none) Q flt ms ↔ wp c (txnK1 t none Q flt) flt ms := wp_txn c t none Q flt ms
 
 theorem exec_pure (flt : Option Addr) (ms : MS R) : exec (pure () : M R Unit) flt ms = ms := rfl
 
@@ -99,6 +132,20 @@ theorem exec_bind_step {β} (k n : String) (eff : State R → State R) (f : Unit
   unfold M.bind step exec
   by_cases h : hit flt ms.fired ms.cnt k n = true <;> simp [h]
 
+theorem exec_bind_getSt {β} (f : State R → M R β) (flt : Option Addr) (ms : MS R) :
+    exec (getSt >>= f) flt ms = exec (f ms.st) flt ms := rfl
+
+theorem exec_bind_getMS {β} (f : MS R → M R β) (flt : Option Addr) (ms : MS R) :
+    exec (getMS >>= f) flt ms = exec (f ms) flt ms := rfl
+
+theorem exec_ite {α} (c : Prop) [Decidable c] (a b : M R α) (flt : Option Addr) (ms : MS R) :
+    exec (if c then a else b) flt ms = if c then exec a flt ms else exec b flt ms := by
+  split <;> rfl
+
+theorem wp_ite {α} (c : Prop) [Decidable c] (a b : M R α) (Q : Out α → MS R → Prop) (flt : Option Addr) (ms : MS R) :
+    wp (if c then a else b) Q flt ms ↔ if c then wp a Q flt ms else wp b Q flt ms := by
+  split <;> rfl
+
 theorem hit_true_fired {flt : Option Addr} {fired : Bool} {c k n} (h : hit flt fired c k n = true) :
     fired = false := by
   simp [hit] at h
@@ -114,5 +161,15 @@ theorem hit_true_fired {flt : Option Addr} {fired : Bool} {c k n} (h : hit flt f
 @[simp] theorem okMS_msgs (ms : MS R) (k n eff) : (okMS ms k n eff).msgs = ms.msgs := rfl
 @[simp] theorem okMS_allocd (ms : MS R) (k n eff) : (okMS ms k n eff).allocd = ms.allocd := rfl
 @[simp] theorem okMS_failed (ms : MS R) (k n eff) : (okMS ms k n eff).failed = ms.failed := rfl
+
+/-- unfold one layer of the wp calculus (everything up to the next "does the plan hit this step?") -/
+macro "wp_simp" : tactic => `(tactic| simp only [wp_txn, wp_step, wp_readStep, wp_bind, wp_pure, wp_refuse,
+  wp_getSt, wp_getMS, wp_emit, wp_attempt, wp_ite, wpK_ok, wpK_fail, attK_ok, attK_fail, txnK1_ok,
+  txnK1_fail_some, txnK1_fail_none, txnK2_ok, txnK2_fail_some, txnK2_fail_none, onThenFailure,
+  exec_pure, exec_step, exec_bind_step, exec_bind_getSt, exec_bind_getMS, exec_ite, hit_fired,
+  failMS_fired, okMS_fired, failMS_st, okMS_st, Bool.false_eq_true, if_false, if_true])
+
+/-- close a leaf of the case tree -/
+macro "wp_fin" : tactic => `(tactic| simp [exec_pure, exec_step, exec_bind_step, exec_bind_getSt, exec_bind_getMS, exec_ite])
 
 end Eru.Cluster
